@@ -4,7 +4,7 @@ import os
 from collections import Counter
 from vt import core, ref as R, build as B, sat
 
-REF_LIMIT = {'quick': 250, 'thorough': 1500}
+REF_LIMIT = {'quick': 250, 'thorough': 1000}
 # designs per stratum in a quick run (stratified over shape classes, see gen.thin); thorough runs take whole strata
 # cheap checks take (nearly) whole strata even in a quick run
 QUICK_CAPS_BIG = {'S3s': 200, 'S1p': 400, 'S1xa': 150, 'S1': 900, 'S1x': 250, 'S2': 550, 'S3': 400, 'S4': 170, 'S5': 190, 'S6': 50, 'S9': 450}
